@@ -47,6 +47,26 @@ pub fn map_case(case: &J) -> J {
                     return json!({"mismatch": format!("shift_remove returned {:?}, model {:?}", r, mr)});
                 }
             }
+            "shift_remove_index" => {
+                let i = op["i"].as_u64().unwrap_or(0) as usize;
+                let r = m.shift_remove_index(i);
+                let mr = if i < model.len() { let e = model.remove(i); Some((e.0, e.2)) } else { None };
+                if r != mr {
+                    return json!({"mismatch": format!("shift_remove_index({}) returned {:?}, model {:?}", i, r, mr)});
+                }
+            }
+            "entry_or_insert" => {
+                let r = *m.entry_hashed(h(k, hv)).or_insert(v);
+                let mr = if let Some(e) = model.iter().find(|e| e.0 == k) {
+                    e.2
+                } else {
+                    model.push((k, hv, v));
+                    v
+                };
+                if r != mr {
+                    return json!({"mismatch": format!("entry().or_insert returned {:?}, model {:?}", r, mr)});
+                }
+            }
             "pop" => {
                 let r = m.pop();
                 let mr = model.pop().map(|e| (e.0, e.2));
